@@ -34,6 +34,9 @@ func (c *cbWorld) add(s string) { c.log = append(c.log, s) }
 func (c *cbWorld) take() []string { l := c.log; c.log = nil; sort.Strings(l); return l }
 
 func (c *cbWorld) feat(f string) api.FeatureLocalInterface {
+	if f == "F0" {
+		return c.w.L.NodeManagement() // the node-management feature is a local feature like any other
+	}
 	e := uint(1)
 	if f == "F2" {
 		e = 2
@@ -55,7 +58,7 @@ func describe(kind, f, name string, m api.ResponseMessage) string {
 
 func newCBWorld() *cbWorld {
 	c := &cbWorld{w: stdWorld(false, "A", "B"), cbs: map[string]func(api.ResponseMessage){}, reg: map[string][]string{}, rres: map[string][]string{}, gone: map[string]bool{}}
-	for _, f := range []string{"F1", "F2"} {
+	for _, f := range []string{"F1", "F2", "F0"} {
 		f := f
 		// distinct function literals: distinct function values
 		c.cbs[f+"/a"] = func(m api.ResponseMessage) { c.add(describe("resp", f, "a", m)) }
@@ -138,6 +141,25 @@ func (c *cbWorld) apply(op string, judge bool) (viol []string, digest string, ef
 			effect = true
 		}
 		digest = "disc"
+	case "nmreply":
+		// a use-case data reply of peer p's node management to the local node management, referencing a counter
+		F, refS, p := "F0", f[1], f[2]
+		if c.gone[p] {
+			digest = "nmreply:gone"
+			break
+		}
+		pe := c.w.Peers[p]
+		uc := &model.NodeManagementUseCaseDataType{}
+		uc.AddUseCaseSupport(*world.FAddr("d"+p, []uint{1}, 0), model.UseCaseActorTypeCEM, ucNames["u1"], "1.0.0", "r", true, scenList("12"))
+		d := pe.Datagram(pe.NM(), world.LocalNM(), model.CmdClassifierTypeReply, false, util.Ptr(model.MsgCounterType(atoi(refS))), model.CmdType{NodeManagementUseCaseData: uc})
+		key := fmt.Sprintf("%s/%s", F, refS)
+		for _, n := range c.reg[key] {
+			want = append(want, fmt.Sprintf("resp %s/%s ref=%s from=%s local=%s data=%s", F, n, refS, world.AddrStr(pe.NM()), world.AddrStr(world.LocalNM()), world.JSON(uc)))
+			effect = true
+		}
+		delete(c.reg, key)
+		pe.Deliver(d)
+		digest = fmt.Sprintf("nmreply:%d", len(want))
 	case "reply", "result":
 		F, refS, p, variant := f[1], f[2], f[3], f[4]
 		if c.gone[p] {
@@ -213,7 +235,7 @@ func (c *cbWorld) apply(op string, judge bool) (viol []string, digest string, ef
 
 func (c *cbWorld) key() string {
 	var parts []string
-	for _, f := range []string{"F1", "F2"} {
+	for _, f := range []string{"F1", "F2", "F0"} {
 		s := spine.VerifFeatureState(c.feat(f))
 		parts = append(parts, f+":"+s[strings.Index(s, "cbs="):strings.Index(s, " subs=")])
 	}
@@ -244,6 +266,8 @@ func c14Alphabet(thorough bool) []string {
 		"result:F1:1:A:ok", "result:F1:1:B:err", "result:F1:2:A:err", "result:F2:1:A:ok", "result:F1:3:A:ok"}
 	// callbacks of real requests to two peers (equal counters), connection removals in between
 	a = append(a, "reqcb:F1:A:a", "reqcb:F1:B:b", "disc:A", "reply:F1:@:B:valid", "result:F1:@:A:ok", "addres:F1:rc", "addres:F1:rd")
+	// callbacks on the node-management feature (replies to it take their own path through the stack)
+	a = append(a, "addcb:F0:7:a", "nmreply:7:A", "nmreply:8:A", "result:F0:7:A:ok")
 	if thorough {
 		a = append(a, "addres:F1:rb", "addres:F2:ra", "disc:B", "reqcb:F2:A:a", "reply:F1:@:A:valid", "reply:F2:@:B:valid", "addcb:F2:2:b", "reply:F2:2:B:valid", "result:F2:2:B:ok", "reply:F1:none:A:valid", "result:F1:none:A:ok")
 	}
